@@ -453,8 +453,8 @@ where
         // right tail
         let c_last = &self.centroids[self.centroids.len() - 1];
         cum -= 0.5 * c_last.count;
-        let delta = s - 0.5 * c_last.count;
-        let t = (limit - cum) / delta;
+        let delta = 0.5 * c_last.count;
+        let t = ((limit - cum) / delta).min(1.);
         Self::interpolate(c_last.mean(), self.max, t)
     }
 
